@@ -29,6 +29,10 @@ CHECKS.update({
  "C18": _chain("C18", "ibc", "Outgoing withdrawals (trace and ibc/ spelling, plain and bridge senders) and incoming packets / acks / time-outs are driven through the real Ics20Transfer handlers; an independent ICS-20 ledger per (channel, sequencer-origin asset) must equal the escrow keys after every step, error-acknowledged receives must change nothing but the ack record, successful ones exactly what the source/sink rule says (incl. the bridge deposit).", note="packets are driven at the penumbra AppHandler boundary (no ICS-23 proof verification); each outgoing packet is resolved at most once, as IBC core guarantees"),
  "C14": _chain("C14", "validators", "Sequences of validator add / update / remove actions (several per block, repeated keys, removals on 1-3 validator sets) across pre-Aspen blocks, the Aspen upgrade block and post-Aspen blocks; every FinalizeBlock.validator_updates batch is folded over the genesis set with CometBFT's rules and compared after every block with the set and count the application stores (both storage formats read through the crate's own getters on the committed snapshot)."),
  "C06": _chain("C06", "proposals", "Every PrepareProposal output (mempools filled around both limits, all max_tx_bytes classes, mixed action groups, dependent nonces, failing transactions) is checked for byte limit, sequenced-data limit, group order, acceptance by every node that processes it and fatal-error-free execution; a catalogue of ~20 single mutations (commitments, typed data items, undecodable / truncated / re-signed / duplicated / reordered / replayed / unaffordable transactions, sequenced data over the limit by one byte with a control exactly at the limit) is judged by the real ProcessProposal of a node at the same state."),
+ "C15": dict(engine="chainsim", cat="exploration", ref="DESIGN.md §5 C15",
+   technique="runtime monitoring: real ProposalHandler::validate_proposal / prepare_proposal / price aggregation driven with harness-signed vote extensions on a post-Aspen ChainSim state; offline exact-integer oracle over the recorded cases",
+   text="Every voting-power vector over a 9-value alphabet for <=3 (quick) / <=4 (thorough) validators x every signer subset, each with the all-valid extended commit and rotating defects (forged / mis-attributed / wrong height, round or chain signatures, missing signature, oversized / malformed / unknown-pair extensions, duplicated voter, outsider, nil vote with extension, five kinds of last-commit mismatch), plus the empty extended commit; accepted commits have their published prices compared with the min/max of the reported prices (signed 128-bit extremes, negative values, even and odd reporter counts).",
+   note="validity of signatures and last-commit agreement is known by construction; the ABCI wrapping (DataItem encoding, proposed_last_commit plumbing) is exercised by the ChainSim profiles with empty extensions only"),
 })
 
 CHECKS["C13"] = dict(engine="mempool-walk", cat="exploration", ref="DESIGN.md §5 C13",
